@@ -81,6 +81,7 @@ def strat(tier):
         'inflight': st.sampled_from([1, 1, 1, 2, 3]),
         # submit-override only: one ordinary batch (nothing supplied) goes through the SAME handler first
         'earlier_batch': st.sampled_from([False, True]),
+        'empty_request': st.sampled_from([False, False, False, True]),
     })
 
 
@@ -367,6 +368,15 @@ def run_case(case):
                     raise Violation('C03:value-mismatch-with-batches-in-flight',
                                     'batch %d of %d submitted before execution: output %r\n got      %r\n expected %r\n graph %r' % (bi, k, rn, g, e, nodes))
         labels.append('batches-in-flight')
+    # the empty subset of outputs: nothing is requested, nothing runs
+    if case.get('empty_request') and not via_node:
+        termops.reset()
+        with must_not_raise(P, 'generate(%d, [], with_values=%r)' % (bs, sorted(supplied))):
+            got0 = m.generate(bs, [], with_values=supplied or None, seed=seed)
+        ran0 = {k: v for k, v in termops.CALLS.items() if v}
+        if dict(got0) != {} or ran0:
+            raise Violation('C03:empty-request-evaluates', 'generate with an EMPTY list of outputs returned keys %r and ran %r; graph %r' % (sorted(got0), ran0, nodes))
+        labels.append('empty-request')
     # the .observed property of observable nodes
     nobs = 0
     for nm in names:
